@@ -1,10 +1,10 @@
 SPECIFICATION Spec
 CONSTANTS
-  Polls <- R4
-  Calls <- I3
+  Polls <- R3
+  Calls <- I2
   FixIdle = TRUE
   FixStop = TRUE
-  FixOrder = TRUE
+  FixOrder = FALSE
   FixWake = TRUE
   CallTimeouts = TRUE
 INVARIANTS NoDeadLetter NoStuckPoll Conservation OwnResult ProviderPolls NoSleepingCall NothingLost NoLostResult
